@@ -2,12 +2,12 @@ package main
 
 import (
 	"crypto/sha256"
+	"encoding/hex"
 	"fmt"
 	"sort"
 	"strconv"
 	"strings"
 
-	"verifharness/hx"
 )
 
 // The property oracle, evaluated on the recorded event log of the real code, independently of Lean.
@@ -82,7 +82,7 @@ func orderOf(es []ev, id int) (int, bool) {
 	return 0, false
 }
 
-func oracle(r *hx.Run, w *world, lines []string, script []string) string {
+func oracle(r *rec, w *world, lines []string, script []string) string {
 	es := parseEvs(lines)
 	trigger := "plain"
 	for _, op := range script {
@@ -191,7 +191,7 @@ func oracle(r *hx.Run, w *world, lines []string, script []string) string {
 }
 
 // classify counts branches and records non-trivial cases.
-func classify(r *hx.Run, lines []string, script []string) {
+func classify(r *rec, lines []string, script []string) {
 	es := parseEvs(lines)
 	orders := map[int]bool{}
 	branch := false
@@ -260,6 +260,6 @@ func classify(r *hx.Run, lines []string, script []string) {
 		keys := append([]string(nil), script...)
 		sort.Strings(keys)
 		h := sha256.Sum256([]byte(strings.Join(script, "\n") + "\n--\n" + strings.Join(lines, "\n")))
-		r.Nontrivial(string(h[:8]))
+		r.res.Nontrivial = hex.EncodeToString(h[:8])
 	}
 }
